@@ -97,7 +97,9 @@ def ref_partition(spec):
     iscat = lambda i: nodes[i]['k'] == 'cat' and nodes[i]['dim'] == 1
     full = lambda i: nodes[i]['k'] in LAYER and not is_dw(nodes[i])
     module = lambda i: nodes[i]['k'] in LAYER + BN
-    fixed = lambda i: module(i) and (CG.excluded(spec, i) or (not auto and nodes[i].get('pit') is None))
+    # autoconvert off: a plain BatchNorm directly after a hand-placed PIT layer is fused into it (it is not a fixed module)
+    fusedbn = lambda i: nodes[i]['k'] in BN and not auto and nodes[nodes[i]['src']].get('pit') is not None
+    fixed = lambda i: module(i) and not fusedbn(i) and (CG.excluded(spec, i) or (not auto and nodes[i].get('pit') is None))
     search = lambda i: nodes[i]['k'] in LAYER and not fixed(i)
     for i, nd in enumerate(nodes):
         if not (nd['k'] == 'in' or full(i) or iscat(i)):
@@ -258,6 +260,11 @@ def observe(spec, mask_seed, modes=('random',), wseed=0):
     for mode in modes:
         r = {'mode': mode}
         bits = choose_masks(rng, classes, 'random' if mode == 'loaded' else mode)
+        # hand-placed layers binarize with the user's threshold: alive / dead values on both sides of it, also between it and 0.5
+        thr = spec.get('pit_thr', 0.5) if any(nd.get('pit') is not None for nd in nodes) else 0.5
+        hi = [1.0, (thr + 0.5) / 2] if thr < 0.5 else [1.0, (thr + 1.0) / 2]
+        lo = [0.0, thr / 2] if thr < 0.5 else [0.0, (thr + 0.5) / 2]
+        r['threshold'] = thr
         # the alpha of a FROZEN masker is written too (adversarial values): its mask must stay all ones
         r['frozen_alpha'] = {}
         with torch.no_grad():
@@ -267,7 +274,7 @@ def observe(spec, mask_seed, modes=('random',), wseed=0):
                     r['frozen_alpha'][c] = adv
                     fm.alpha.copy_(torch.tensor(adv))
                 else:
-                    fm.alpha.copy_(torch.tensor([1.0 if b else 0.0 for b in bits[c]]))
+                    fm.alpha.copy_(torch.tensor([rng.choice(hi) if b else rng.choice(lo) for b in bits[c]] if thr != 0.5 else [1.0 if b else 0.0 for b in bits[c]]))
         if mode == 'loaded':
             # the architecture parameters arrive through load_state_dict of a state taken from a differently
             # configured PIT of the same network (nothing excluded, every masker pruned at random)
@@ -286,7 +293,7 @@ def observe(spec, mask_seed, modes=('random',), wseed=0):
             # expected masks from the values that are now in the maskers (python reference of the masker)
             for _, (c, fm) in cls.items():
                 a = [float(v) for v in fm.alpha.detach().tolist()]
-                bits[c] = [True] * len(a) if classes[c][1] else [abs(v) > 0.5 for v in a[:-1]] + [True]
+                bits[c] = [True] * len(a) if classes[c][1] else [abs(v) > thr for v in a[:-1]] + [True]
         r['masks'] = bits
         lay = {}
         for i, m in sorted(pit.items()):
@@ -389,8 +396,11 @@ def observe_mps(spec, mask_seed, n_assign=2, wseed=0):
     try:
         model = CG.build(spec, seed=wseed).eval()
         precs = (0, 2, 4, 8)
+        qinfo = get_default_qinfo(w_precision=precs, a_precision=(8,))
+        for i in spec.get('qinfo_layers', []):        # an entry of its own (same content) for a layer inside a sharing group
+            qinfo[CG.name(i).replace('.', '_')] = copy.deepcopy(qinfo['layer_default'])
         p = MPS(model, cost=params_bit, input_shape=tuple(xs[0].shape[1:]), w_search_type=MPSType.PER_CHANNEL,
-                qinfo=get_default_qinfo(w_precision=precs, a_precision=(8,)), hard_softmax=True).eval()
+                qinfo=qinfo, hard_softmax=True).eval()
     except Exception as ex:
         ob['construct'] = 'EXC:%s:%s' % (type(ex).__name__, str(ex)[:160])
         return ob
@@ -444,6 +454,13 @@ def observe_mps(spec, mask_seed, n_assign=2, wseed=0):
         r['layers'] = d
         ob['runs'].append(r)
     return ob
+
+
+def mps_corpus():
+    c = lambda src, cin, cout: dict(_c2(src, cin, cout), padding=1)
+    n = [{'k': 'in', 'shape': [3, 6, 6]}, c(0, 3, 5), {'k': 'relu', 'src': 1}, c(2, 5, 5), {'k': 'add', 'src': [2, 3]}, {'k': 'relu', 'src': 4},
+         {'k': 'avgpool2d', 'src': 5, 'ks': 2}, {'k': 'flatten', 'src': 6, 'start': 1, 'form': 'fn'}, {'k': 'linear', 'src': 7, 'cin': 45, 'cout': 3, 'bias': True}]
+    return [('mps-layer-specific-qinfo', {'dim': 2, 'nodes': n, 'out': [8], 'method': 'mps', 'qinfo_layers': [3]})]
 
 
 def gen_mps_spec(rng):
@@ -572,6 +589,11 @@ def corpus():
     # a channel cat spelled torch.concat: refused at construction or handled like torch.cat
     n = [I, _c2(0, 3, 2), _c2(0, 3, 3), {'k': 'cat', 'src': [1, 2], 'dim': 1, 'alias': 'concat'}, _c2(3, 5, 3)]
     out.append(('cat-alias', {'dim': 2, 'nodes': _head(n, 4, 3)}))
+    # hand-placed layers with binarization_threshold 0.3; two layers share a masker across a residual sum, only one is followed by a BatchNorm
+    n = [I, dict(_c2(0, 3, 4), pit=1, pit_frozen=False), {'k': 'bn2d', 'src': 1, 'c': 4}, {'k': 'relu', 'src': 2}, dict(_c2(3, 4, 4), pit=1, pit_frozen=False),
+         {'k': 'add', 'src': [3, 4]}, dict(_c2(5, 4, 3), pit=6, pit_frozen=False), {'k': 'relu', 'src': 6}, {'k': 'gap2d', 'src': 7},
+         {'k': 'flatten', 'src': 8, 'start': 1, 'form': 'fn'}, {'k': 'linear', 'src': 9, 'cin': 3, 'cout': 2, 'bias': True, 'pit': 10, 'pit_frozen': True}]
+    out.append(('placed-threshold', {'dim': 2, 'nodes': n, 'autoconvert': False, 'pit_thr': 0.3}))
     for _, s in out:
         s['out'] = [len(s['nodes']) - 1]
     return out
@@ -598,6 +620,10 @@ def classes_of(spec):
     fixed_w = lambda j: nodes[j]['k'] == 'in' or (nodes[j]['k'] in LAYER and not is_dw(nodes[j]) and CG.excluded(spec, j)) or (nodes[j]['k'] in LAYER and not is_dw(nodes[j]) and not spec.get('autoconvert', True) and nodes[j].get('pit') is None)
     if spec.get('rewrap'):
         out.append('rewrapped-with-train-features-off')
+    if spec.get('pit_thr', 0.5) != 0.5:
+        out.append('placed-layers-with-own-threshold')
+    if spec.get('qinfo_layers'):
+        out.append('layer-specific-qinfo')
     for i, nd in enumerate(nodes):
         if nd.get('alias'):
             out.append('cat-spelled-with-an-alias')
@@ -743,7 +769,7 @@ def judge(spec, ob):
     return bad
 
 
-PRIORITY = ['cat-spelled-with-an-alias', 'weight-frozen-layer', 'rewrapped-with-train-features-off', 'placed-masker-not-trainable', 'batchnorm-after-flatten', 'placed-pit-layer-listed-in-exclude', 'squeeze-of-features-axis', 'axis-from-the-end:time-cat', 'axis-from-the-end:features-cat', 'axis-from-the-end:flatten', 'axis-from-the-end:squeeze', 'axis-from-the-end:unsqueeze', 'nested-flatten-calculators', 'squeeze-trailing-axis-of-4d', 'cat-repeats-a-tensor', 'depthwise-after-cat', 'add-with-cat-operand', 'cat-of-two-fixed-width-tensors',
+PRIORITY = ['layer-specific-qinfo', 'placed-layers-with-own-threshold', 'cat-spelled-with-an-alias', 'weight-frozen-layer', 'rewrapped-with-train-features-off', 'placed-masker-not-trainable', 'batchnorm-after-flatten', 'placed-pit-layer-listed-in-exclude', 'squeeze-of-features-axis', 'axis-from-the-end:time-cat', 'axis-from-the-end:features-cat', 'axis-from-the-end:flatten', 'axis-from-the-end:squeeze', 'axis-from-the-end:unsqueeze', 'nested-flatten-calculators', 'squeeze-trailing-axis-of-4d', 'cat-repeats-a-tensor', 'depthwise-after-cat', 'add-with-cat-operand', 'cat-of-two-fixed-width-tensors',
             'cat-of-two-flattened-tensors', 'excluded-layer-next-to-searchable']
 
 
@@ -772,7 +798,9 @@ def to_ir(spec):
             dw = k != 'linear' and nd['groups'] == nd['cin'] and nd['groups'] == nd['cout']
             ir.append('NLayer %d %d %s %s' % (nd['src'], nd['cout'], 'Dw' if dw else 'Full', b(srch)))
         elif k in BN:
-            ir.append('NBn %d %s' % (nd['src'], b(auto and not CG.excluded(spec, i))))
+            # autoconvert off: a BatchNorm directly after a hand-placed PIT layer is fused (disappears); its flag is immaterial
+            fusedbn = (not auto) and nodes[nd['src']].get('pit') is not None
+            ir.append('NBn %d %s' % (nd['src'], b((auto and not CG.excluded(spec, i)) or fusedbn)))
         elif k == 'flatten':
             rank = len(sh[nd['src']]) + 1
             st = nd.get('start', 1)
@@ -837,7 +865,7 @@ def _work(job):
     kind, seed, spec, modes = job
     try:
         if kind == 'mps':
-            spec = gen_mps_spec(random.Random(seed))
+            spec = spec or gen_mps_spec(random.Random(seed))
             return kind, seed, spec, observe_mps(spec, seed, n_assign=len(modes), wseed=seed % 7), None
         if spec is None:
             spec = CG.gen(random.Random(seed))
@@ -872,6 +900,8 @@ def run(ctx):
     base = ctx.rng.randrange(1 << 30)
     for k in range(n_arch):
         jobs.append(('gen', base + k, None, _modes(ctx.rng, ctx.quick)))
+    for name, spec in mps_corpus():
+        jobs.append(('mps', 7, spec, ('random', 'min')))
     for k in range(40 if ctx.quick else 250):
         jobs.append(('mps', base + 100000 + k, None, ('random', 'min') if ctx.quick else ('random', 'min', 'first-dead', 'alternate')))
     from concurrent.futures import ProcessPoolExecutor
